@@ -498,8 +498,7 @@ func (m *Model) ParentOf(x string) (string, bool) {
 	return cs.chainParent(x), false
 }
 
-// LockInfo counts the stored locks targeting x and how many of them are live (under the
-// resolution that assumes no unsure mark is set).
+// LockInfo counts the stored locks targeting x and how many of them are certainly live.
 func (m *Model) LockInfo(x string) (stored, live int) {
 	cs := &m.C[ByName[x].Cnr]
 	v := &view{m: m, cs: cs, assume: map[string]bool{}}
@@ -508,8 +507,8 @@ func (m *Model) LockInfo(x string) (stored, live int) {
 			continue
 		}
 		stored++
-		if !v.expired(l.Name) && !v.tombstoned(l.Name) && !v.markedDefault(l.Name) {
-			live++
+		if !v.expired(l.Name) && !v.tombstoned(l.Name) && !v.markedDefault(l.Name) && !cs.Unsure[l.Name] {
+			live++ // a lock whose own mark is unsure is not counted as certainly live
 		}
 	}
 	return
